@@ -11,7 +11,7 @@ CHECKS = {
              'are created with durability Some(Buffer) by default; of recover_journals over a symbolic directory (3 entries, symbolic ids, symbolic *.jnl flags; the sort is modelled by one continuation per feasible order): '
              'active = highest id, sealed = the rest ascending; of Database::recover (keyspaces, then sealed journals in that order, then the active journal) and Writer::rotate (new journal = old id + 1). '
              'The torn-tail obligation of C03 (every cut offset of one journal shape) and the evict rule of C10 are decided here as well; the per-record replay rule and the counters are decided in C04 / C11. Counterexamples are replayed natively: 37+ process-crash images (directory copied while the process lives) over workloads '
-             'with single writes, batches, clears, keyspace creation/deletion, rotation, flush, compaction, journal rotation and eviction; each image must reopen and equal the acknowledged state.',
+             'with single writes, batches, clears, keyspace creation/deletion, rotation, flush, compaction, journal rotation and eviction; each image must reopen and equal the acknowledged state. Added: recovery must not panic on a well-formed journal; a batch of two items over two keyspaces is replayed item by item (a verdict for one item does not decide the other); the directory listing may be ordered by file name only if that equals the id order (file-name order modelled); replays with 12 live journal files and with a half-flushed batch.',
         design_ref='DESIGN.md §5 C02',
         note='Trusted: F1/F2 (BufWriter::flush hands bytes to the OS in order; a process crash keeps them), E1. Outside: a crash in the middle of a system call issued inside lsm-tree (table/manifest writes), '
              'thread schedules finer than lock events, > 3 journal files in the directory scan.',
@@ -22,7 +22,7 @@ CHECKS = {
         text='Symbolic execution of the MIR of every writer (insert/remove/remove_weak/clear/WriteBatch::commit, Database::persist, '
              'worker loop) with one Bool fault variable per journal write/flush/sync; z3 decides for all paths and fault positions '
              'that a fault implies Err + poison, and that the poison flag gates every effect under the journal lock. Bounded: batch '
-             '<= 2 (quick) / 3 (thorough) items. Counterexamples are replayed natively with a fault injector before being reported.',
+             '<= 2 (quick) / 3 (thorough) items. Counterexamples are replayed natively with a fault injector before being reported. Added: worker_tick hands every journal failure (rotation, position query, maintenance, flush, compaction) on to the worker loop.',
         design_ref='DESIGN.md §5 C13',
         note='Trusted: environment contract F1-F3/E1 (std BufWriter/File/Mutex, lsm-tree insert/remove/clear as stubs), MIR dump of the '
              'nightly toolchain, z3. Outside: failures inside lsm-tree, more than one fault per call, memory-model effects.',
@@ -34,7 +34,7 @@ CHECKS = {
              'z3 decides that each tree read uses exactly the view\'s instant and that returned iterators own a registered nonce; every path of every '
              'view-consuming function closes its tracker registration exactly once; each SnapshotTracker operation is one inductive step from an arbitrary '
              'state satisfying the tracker invariant (3 DashMap slots, 2 ghost holders, 64-bit instants); a batch becomes visible in one step (obligation shared with C06). Counterexamples are replayed natively '
-             '(frozen-view oracle, open-snapshot counts, GC + flush + major compaction battery).',
+             '(frozen-view oracle, open-snapshot counts, GC + flush + major compaction battery). Added: the counter-wiring obligations (the snapshot tracker must own the visible-seqno counter, not the allocation counter) with a replay of a snapshot taken while a batch is between its applies after a reopen.',
         design_ref='DESIGN.md §5 C05',
         note='Trusted: contract E2/E3/E5 for lsm-tree (reads at an instant, GC watermark rule, SuperVersion retention), F3/F4 (locks, DashMap as a bounded map). '
              'Outside: thread schedules below event granularity, lsm-tree iterator internals, more than 3 distinct open instants.',
@@ -45,7 +45,7 @@ CHECKS = {
         text='MIR symbolic execution of every read/write method of the optimistic write transaction (z3: the recorded read covers what was read, under the right '
              'keyspace id; every write records its conflict key), of ConflictManager::has_conflict against its set-theoretic specification for symbolic reads of every '
              'shape and bound kind (<= 2 reads x <= 2 keys, abstract key order), and of Oracle::with_commit (validation range ts > instant, no effect on conflict, '
-             'registration after apply under one mutex, pruning vs GC watermark), and of the single-operation helpers of OptimisticTxKeyspace (they commit through the oracle, never write to the inner keyspace directly). Counterexamples are replayed natively as SSI histories incl. helper histories.',
+             'registration after apply under one mutex, pruning vs GC watermark), and of the single-operation helpers of OptimisticTxKeyspace (they commit through the oracle, never write to the inner keyspace directly). Counterexamples are replayed natively as SSI histories incl. helper histories. Added: has_conflict over two keyspace entries per table with symbolic ids; the oracle mutex is held continuously from validation to registration (replay: first committer parked inside its apply, second commits meanwhile).',
         design_ref='DESIGN.md §5 C07',
         note='Trusted: contract for BTreeMap/BTreeSet (incl. the range panic rule), lsm-tree reads, Mutex. Outside: histories longer than the bounded shapes, '
              'schedules finer than the oracle mutex, lsm-tree prefix_to_range.',
@@ -56,7 +56,7 @@ CHECKS = {
         text='MIR symbolic execution of every write (insert/remove/remove_weak/clear/batch commit) and read entry point of a keyspace, of Iter/Guard and of the '
              'maintenance workers; z3 decides on all paths that the caller\'s key/value/kind reach this handle\'s tree exactly once with the one seqno drawn, that the '
              'write is published before the call returns, that reads pass the key unchanged at SeqNo::MAX and forward to the same-named tree method, and that maintenance '
-             'hands the tree the tracker\'s GC watermark; batch items that can belong to one keyspace are applied in the order given (symbolic sort model for reorderings); a bulk ingestion holds the journal lock across the tree ingestion. lsm-tree itself is covered by contract E1-E8 only. Counterexamples are replayed natively against a sorted reference map.',
+             'hands the tree the tracker\'s GC watermark; batch items that can belong to one keyspace are applied in the order given (symbolic sort model for reorderings); a bulk ingestion holds the journal lock across the tree ingestion. lsm-tree itself is covered by contract E1-E8 only. Counterexamples are replayed natively against a sorted reference map. Added after the second seeding round: the counter-wiring obligations (every tree - new, recovered, meta - is configured with the database\'s seqno counter and the snapshot tracker\'s visible-seqno counter, in that order; identity of the shared cells on the object graph) and reference-map programs that clear / ingest / flush right after a reopen and that remove an overwritten, flushed key through a batch.',
         design_ref='DESIGN.md §5 C01',
         note='Trusted: lsm-tree implements an MVCC ordered map (E1-E8), conversions preserve byte identity. Outside: lsm-tree internals (tables, merge, blob separation), '
              'key/value sizes, configurations other than through the contract, concurrency (C14).',
@@ -66,7 +66,7 @@ CHECKS = {
         category='model_checking',
         text='MIR symbolic execution of WriteBatch::commit (single seqno, publish after the last apply and before unlock), call-site scan of every function that raises the '
              'visible seqno, dataflow of the counters handed to lsm-tree, and a z3 model with a symbolic schedule over the step order extracted from commit: committer ‖ snapshot reader '
-             '(must be unsat) and committer ‖ reader ‖ one lsm-tree version change per contract E5 (sat: known finding, replayed natively with a pause between the per-item applies).',
+             '(must be unsat) and committer ‖ reader ‖ one lsm-tree version change per contract E5 (sat: known finding, replayed natively with a pause between the per-item applies). Added: the batch\'s seqno is drawn inside the journal critical section (C14\'s obligation); the counter-wiring obligations.',
         design_ref='DESIGN.md §5 C06',
         note='Trusted: E2/E5 for lsm-tree, event-granularity atomicity (E10). Outside: batches of more than 3 items, more than one version change, memory-model effects.',
         technique='MIR symbolic execution + z3 bounded schedule model; native two-thread replay through pause hooks',
@@ -75,7 +75,7 @@ CHECKS = {
         category='model_checking',
         text='MIR symbolic execution of every writer: z3/path analysis shows seqno draw, journal appends, tree apply and publish inside one critical section of the journal mutex; '
              'rotation protocol and ingestion locking; a z3 model with a symbolic schedule of two writers (steps extracted from insert) and a reader proves every interleaving linearizable '
-             '(with a vacuity twin without the mutex that must be satisfiable). Liveness of write stalls is not applicable; its safety part is decided: no writer enters the stall / maintenance code while holding the journal lock.',
+             '(with a vacuity twin without the mutex that must be satisfiable). Liveness of write stalls is not applicable; its safety part is decided: no writer enters the stall / maintenance code while holding the journal lock. Added: the held->acquired relation over all locks taken by writers, worker tick, keyspace create/delete, persist, ingestion, rotation and drop is acyclic (deadlock replay); a Compact request is run, not re-queued, when the pool has one worker (replay with one real worker thread).',
         design_ref='DESIGN.md §5 C14',
         note='Trusted: Mutex mutual exclusion, sequential consistency at event granularity, lsm-tree memtable linearizability (E10). Outside: liveness, more than 2 writers + 1 reader, hardware memory ordering.',
         technique='MIR symbolic execution + z3 bounded schedule model; native two-thread replay',
@@ -85,7 +85,7 @@ CHECKS = {
         text='MIR symbolic execution of all six policy codecs (encode then decode over symbolic entries, read/write widths and kinds matched segment by segment), of '
              'CreateOptions::encode_kvs followed by from_kvs over a symbolic key-value store keyed by the option-name constants (every settable field must come back, kv-separation '
              'present and absent), of Database::keyspace on an existing name (create_options never evaluated), of apply_to_base_config (field -> same-named tree setter), and of the create path being atomic under the dictionary lock (shared with C12). '
-             'Counterexamples are replayed natively: create with non-default options, reopen passing other options, compare the options in force.',
+             'Counterexamples are replayed natively: create with non-default options, reopen passing other options, compare the options in force. Added: the replay compares the tree\'s own configuration with the keyspace\'s, at creation and after reopen; deterministic create race.',
         design_ref='DESIGN.md §5 C16',
         note='Trusted: lsm-tree policy types are vectors; strategy get_name/get_config return constructor parameters (contract, exercised natively). Outside: policy vectors longer than 3, '
              'bit-level f32 formatting (compared bitwise), behaviour that depends on an option.',
@@ -97,7 +97,7 @@ CHECKS = {
              'of check_version (accepts exactly V3), of Database::recover and create_new (ordering of version check, directory lock, journal recovery/creation, marker write+sync, '
              'directory fsyncs; a refused open performs no mutating call), of the lock-guard sharing in keyspace handles, and of the Drop impls (wait for the thread counter without a blocking send into the bounded worker queue, '
              'clear cyclic holders after the workers stopped, journal sync). Counterexamples are replayed natively: marker contents from the model (with and without a lock file), second open while handles live, '
-             'directory fingerprint, drop on another thread while a worker is parked inside a memtable rotation.',
+             'directory fingerprint, drop on another thread while a worker is parked inside a memtable rotation. Added: queue model F7 (flume): the wait loop of drop admits a worker that is blocked sending into the full worker queue (found and repaired: d17a866); a closing worker drops its state before it counts itself down (found and repaired: 03163db); the first journal file is created exclusively; replays: drop with a blocked worker, drop with a worker parked after its count-down, drop with a queued sealed journal, directory without version marker.',
         design_ref='DESIGN.md §5 C17',
         note='Not applicable (assumed, F2/F3): that the OS file lock really excludes another process/handle and that joined threads have stopped. Marker longer than 6 bytes behaves like its prefix.',
         technique='MIR symbolic execution over symbolic byte arrays + z3; event-order obligations; native replay',
@@ -106,7 +106,7 @@ CHECKS = {
         category='model_checking',
         text='MIR symbolic execution (the assigner and factories are uninterpreted callables, handle identity through Arc clones): Database::keyspace and recover_keyspaces '
              'install exactly assigner(this keyspace\'s name); the builder stores the assigner; from_kvs never yields a factory; apply_to_base_config forwards the factory to the tree; recovery (active and sealed journal loops over a symbolic recovered state) never re-applies a record whose seqno is covered by the keyspace\'s tables (a filter rewrites an item under its seqno), plus the ghost flushed-mark obligation behind the known finding. '
-             'Counterexamples are replayed natively with a key-deterministic filter assigned to one of two keyspaces, before and after reopen.',
+             'Counterexamples are replayed natively with a key-deterministic filter assigned to one of two keyspaces, before and after reopen. Added: the filter battery also runs with key-value separated keyspaces.',
         design_ref='DESIGN.md §5 C18',
         note='Not applicable to this technique (clause): verdict semantics - kept items untouched, removed/replaced items stay so - are decided inside lsm-tree\'s compaction stream '
              '(contract E5); they are exercised by the native battery only.',
@@ -117,7 +117,7 @@ CHECKS = {
         text='MIR symbolic execution of the journal writer (persist for each mode from an arbitrary dirty-flag state, dirty-flag invariant of every appending method, rotate ordering), '
              'of Database::persist, batch durability and the automatic persist of the single-operation writers; a z3 cursor model (appended >= OS-visible >= durable) composes the '
              'extracted persist paths into every program of <= 4 steps over {write, persist(mode)} and proves that a write acknowledged before an Ok sync-level persist is durable. '
-             'Translator validation: the real journal I/O trace of every writer (trace hook) must equal the journal-event projection of a symbolic path. Counterexamples are replayed natively: power-loss images are built from an strace log of the real run (bytes written before the last fsync/fdatasync of each journal), for workloads with single writes, batches with their own durability, clears and forced journal rotation.',
+             'Translator validation: the real journal I/O trace of every writer (trace hook) must equal the journal-event projection of a symbolic path. Counterexamples are replayed natively: power-loss images are built from an strace log of the real run (bytes written before the last fsync/fdatasync of each journal), for workloads with single writes, batches with their own durability, clears and forced journal rotation. Added: persist of both transactional wrappers forwards mode and result; a transaction\'s durability reaches the batch it commits (power-loss replay of transactions with explicit durability on both databases); the torn-tail obligation of C03 (data persisted after a repair must not be cut away by the next recovery). The durable-length hook no longer flushes the journal buffer (it had hidden missing dirty flags in native replays).',
         design_ref='DESIGN.md §5 C09',
         note='Trusted: F1/F2 (BufWriter/flush/fsync contract). Outside: what fsync does on the device, durability of lsm-tree table files, directory-entry durability beyond the order of fsync_directory calls.',
         technique='MIR symbolic execution + z3 bounded cursor model; native power-loss replay from strace',
@@ -128,7 +128,7 @@ CHECKS = {
              'symbolic content, checksum = uninterpreted collision-free function of the item bytes); JournalBatchReader::next -> JournalReader::next -> Entry::decode_from run over '
              'that image for EVERY end offset and both tails (EOF / pre-allocated zeros). z3 decides that exactly the complete units are emitted with identical contents, no error, '
              'truncation to the last complete unit, and that a unit appended after the repair is read back. Plus framing of each unit, one-batch-per-transaction, and the batch being applied and published under one hold of the journal lock (no rotation can land inside it). '
-             'Counterexamples are replayed natively by cutting a real journal at the byte offset.',
+             'Counterexamples are replayed natively by cutting a real journal at the byte offset. Added: the cut obligation also runs on the dev-profile MIR (debug assertions compiled in: an assertion on bytes of a torn record must not fire - this found the debug_assert repaired in b3b3307); two-item-batch replay rule of C04; replay of a batch of which only one keyspace was flushed before the crash.',
         design_ref='DESIGN.md §5 C03',
         note='Trusted: F5 (xxh3 as collision-free uninterpreted function), Read/Seek/set_len contract of BufReader<File>. Outside: > 3 units x 2 items, keys > 2 / values > 2 bytes, '
              'journal compression on, non-zero garbage after a torn record.',
@@ -140,7 +140,7 @@ CHECKS = {
              'identical seqno / keyspace ids / kinds / keys / values; for EVERY byte position of a journal of complete units and EVERY other value of that byte, z3 decides that opening '
              'fails or yields an identical prefix (checksum modelled as collision-free); the writer\'s compression choice depends only on threshold and length and the reader only on the stored tag. '
              'The solver finds the bytes outside the checksum (Start.seqno): known finding, replayed natively by flipping the byte in a real journal. '
-             'Thorough tier adds five Kani/CBMC proof harnesses over the compiled entry codec (marker round trips, trailer damage, item round trip with key/value <= 2 bytes, arbitrary marker bytes).',
+             'Thorough tier adds five Kani/CBMC proof harnesses over the compiled entry codec (marker round trips, trailer damage, item round trip with key/value <= 2 bytes, arbitrary marker bytes). Added: a Start marker is accepted for every item count (replay: batch of 70 000 items); both recovery loops propagate a reader error (replay: altered byte in a sealed journal).',
         design_ref='DESIGN.md §5 C15',
         note='fjall\'s own logic around LZ4 (what is stored under the Lz4 tag vs. what the reader decompresses, for every value length and compressed length) IS decided (compression/lz4-coherent; '
              'native replay builds a value whose LZ4 image is exactly as long as the value). Not applicable (clause): bit-exactness of the lz4_flex codec itself (whole-buffer loops; assumed F6). '
@@ -153,7 +153,7 @@ CHECKS = {
              'a journal of <= 2 batches with symbolic seqnos, keyspace ids and value kinds. z3 decides on every successful path that the tree writes are exactly - in journal order, with unchanged key, value, kind and the batch seqno - '
              'the records whose keyspace resolves and whose batch is not already covered by that keyspace\'s tables (persisted seqno >= batch seqno), that clears follow the same rule, that every batch was consumed, '
              'and for sealed journals that a memtable is sealed iff data landed in it and the journal is re-registered with the highest applied seqno per keyspace. '
-             'Counterexamples are replayed natively: 24 reference-map programs with reopen cycles (all C01 battery programs, ingestion over journaled keys, ingestion after clear, deleted keyspaces, kv separation, unflushed sealed memtables).',
+             'Counterexamples are replayed natively: 24 reference-map programs with reopen cycles (all C01 battery programs, ingestion over journaled keys, ingestion after clear, deleted keyspaces, kv separation, unflushed sealed memtables). Added: two-item-batch replay obligations (active and sealed journal), recovery panics count as violations, the LZ4 coherence obligation of C15, programs with a half-flushed batch.',
         design_ref='DESIGN.md §5 C04',
         note='Trusted: E8/E2 (tables report their highest seqno; the highest seqno of a key wins), journal reader by contract (bytes: C03/C15). Outside: lsm-tree table/version recovery, recover_keyspaces directory scan (stubbed), > 2 keyspaces / 2 batches.',
         technique='MIR symbolic execution of both recovery loops over a symbolic journal/keyspace state + z3; native reopen replay against a reference map',
@@ -176,7 +176,7 @@ CHECKS = {
              'oldest queued journal and only when every watermark is satisfied (keyspace deleted, or persisted seqno present and >= lsn), that queue and byte counter follow, and that a failed unlink changes nothing; '
              'of build_seqno_map (one watermark per keyspace with memtable data = its highest memtable seqno), rotate_journal (sealed file queued with those watermarks), the straggler list, and the worker flush tick '
              '(watermark capture and rotation under one hold of the journal lock; maintenance after the flush). Recovery re-registration of sealed journals is decided in C04. '
-             'Counterexamples are replayed natively: journal rotation forced at every flush tick, 7 multi-keyspace programs with lagging / deleted / cleared keyspaces; a process-crash image after every maintenance step must recover every acknowledged write; journal count returns to 1.',
+             'Counterexamples are replayed natively: journal rotation forced at every flush tick, 7 multi-keyspace programs with lagging / deleted / cleared keyspaces; a process-crash image after every maintenance step must recover every acknowledged write; journal count returns to 1. Added: maintenance reclaims every evictable journal (a deleted keyspace never pins one), the sealed-journal recovery registers watermarks for exactly the replayed keyspaces with the highest applied seqno (incl. two item batches; a panic counts), journal order on recovery incl. file-name order, a stepwise program with two sealed memtables at rotation and one with 12 live journals.',
         design_ref='DESIGN.md §5 C10',
         note='Trusted: E8 (FIFO flush, persisted seqno = highest seqno in tables), C14 (apply under the journal lock), F2 (remove_file). Outside: > 2 queued journals / 2 watermarks, schedules finer than lock events, directory-entry durability of the unlink.',
         technique='MIR symbolic execution from an arbitrary (invariant-free) queue state + z3 validity queries; native crash-image replay',
@@ -187,7 +187,7 @@ CHECKS = {
              'a journal of <= 2 batches whose seqnos and keyspace ids are symbolic 64-bit values (ids may or may not resolve; batches may be replayed or skipped). z3 decides on every '
              'successful path that the next seqno exceeds the seqno of every batch read and the highest seqno of every tree, and that the visible seqno equals the next seqno. '
              'Counterexamples are replayed natively: 9 pre-reopen histories (journal only, tables only, both, ingested, cleared, tombstones only, deleted keyspace, several marks) through two reopens, '
-             'comparing the counter with the highest seqno any tree reported and reading back writes made after the reopen.',
+             'comparing the counter with the highest seqno any tree reported and reading back writes made after the reopen. Added: the counter-wiring obligations and histories with four bulk-loaded keyspaces in both load orders.',
         design_ref='DESIGN.md §5 C11',
         note='Trusted: E8 (lsm-tree reports the maximum seqno of memtables+tables), journal reader by contract (bytes: C03/C15). Outside: > 2 keyspaces / 2 batches per journal, the sealed-journal '
              'loop of recover_sealed_memtables (same statements; checked separately as part of C04), lsm-tree read path (a higher seqno wins: E2).',
@@ -198,7 +198,7 @@ CHECKS = {
         text='MIR symbolic execution: every writer touches only its own handle\'s tree and journals under that keyspace\'s id (batch: item i -> keyspace i); writes through a deleted handle return '
              'KeyspaceDeleted before any lock/journal/tree effect; delete_keyspace flags the handle only after the meta keyspace removal succeeded; MetaKeyspace::remove_keyspace ingests tombstones for the '
              'id->name key and all stored configuration keys and removes the name; Database::recover (symbolic journal and keyspace ids, as C11) applies a record only to the tree of the keyspace whose id it carries, '
-             'never applies unresolvable records, and leaves the keyspace id counter above every id that occurs in a record of the active or of a sealed journal; delete_keyspace removes only the handle\'s own keyspace (ids compared); Database::keyspace looks up and registers a new name under one hold of the dictionary lock; recover_keyspaces over a symbolic directory recovers each resolvable directory under its own id / stored name / folder and raises the id counter above them. Counterexamples are replayed natively with create/write/delete/re-create/reopen histories.',
+             'never applies unresolvable records, and leaves the keyspace id counter above every id that occurs in a record of the active or of a sealed journal; delete_keyspace removes only the handle\'s own keyspace (ids compared); Database::keyspace looks up and registers a new name under one hold of the dictionary lock; recover_keyspaces over a symbolic directory recovers each resolvable directory under its own id / stored name / folder and raises the id counter above them. Counterexamples are replayed natively with create/write/delete/re-create/reopen histories. Added: a deleted keyspace never pins a sealed journal (and through its watermark its own files): reclaim rule of C10 with a native replay; deterministic create race through a pause point before the dictionary lock.',
         design_ref='DESIGN.md §5 C12',
         note='Trusted: HashMap/RwLock contract, lsm-tree ingestion as event stub, file removal on last handle drop (F2). Outside: recover_keyspaces directory scan (stubbed in the recover harness), > 2 keyspaces.',
         technique='MIR symbolic execution + z3 (handle identity, symbolic ids); native lifecycle replay',
